@@ -229,6 +229,21 @@ def _real_materials_case(case, tier, seed):
             slds = [nsf.D2O_sld(f, volume_fraction=v, D2O_fraction=d1, wavelength=l)[0] for v in (0.0, 0.35, 1.0)]
             check('match_point_independent_of_volume_fraction[%s]' % m, max(slds) - min(slds) <= 1e-9 * max(1.0, abs(s1)) and abs(slds[0] - s1) <= 1e-9 * max(1.0, abs(s1)),
                   {'wavelength': l, 'D2O_fraction': float(d1)}, [repr([float(x) for x in slds]), repr(float(s1))])
+    # vectors of D2O fractions or volume fractions: entry i is the scalar call with entry i (lengths 1, 3 and 4)
+    f = formulas.formula('C3H4H[1]3NO2@1.29n')
+    for fr in ([0.3], [0.0, 0.5, 1.0], [0.0, 0.25, 0.5, 1.0]):
+        for which in ('D2O_fraction', 'volume_fraction'):
+            kw = {'D2O_fraction': 0.2, 'volume_fraction': 0.4}
+            try:
+                out = nsf.D2O_sld(f, wavelength=2.0, **dict(kw, **{which: np.array(fr)}))
+                ok = True
+                for i, x in enumerate(fr):
+                    sc = nsf.D2O_sld(f, wavelength=2.0, **dict(kw, **{which: x}))
+                    ok = ok and all(np.shape(o) == (len(fr),) and abs(o[i] - s_) <= 1e-9 * max(1.0, abs(s_)) for o, s_ in zip(out[:2], sc[:2]))
+                obs = repr([np.asarray(o).tolist() for o in out[:2]])[:160]
+            except Exception as e:   # noqa: BLE001
+                ok, obs = False, '%s: %s' % (type(e).__name__, e)
+            check('vector_of_fractions[%s|n=%d]' % (which, len(fr)), ok, {which: fr}, [obs, 'entry-wise equal to scalar calls'])
     res['queries'] = res['distinct'] = res['claims']
     res['samples'] = [dict(materials=mats, wavelengths=lams)]
     return res
